@@ -87,11 +87,14 @@ class Layouts:
         self.structs = {}    # name -> [field names]  (tuple structs: '0','1',..)
         self.variant_fields = {}   # (enum, variant) -> [field names] for struct-like variants
         self.sources = {}    # name -> file it came from
+        self.aliases = {}    # type alias name -> target type text
         self.consts = {}     # (module file stem, NAME) -> literal value (str / int) for simple `const NAME: T = literal;`
 
     def add_source(self, path, only=None):
         src = strip_comments(open(path).read())
         if only is None:
+            for m in re.finditer(r'\btype\s+(\w+)(?:<[^=]*>)?\s*=\s*([^;]+);', src):
+                self.aliases.setdefault(m.group(1), ' '.join(m.group(2).split()))
             stem = os.path.splitext(os.path.basename(path))[0]
             for m in re.finditer(r'\bconst\s+(\w+)\s*:\s*&(?:\'static\s+)?str\s*=\s*"((?:[^"\\]|\\.)*)"\s*;', src):
                 self.consts.setdefault((stem, m.group(1)), m.group(2).encode().decode('unicode_escape'))
